@@ -267,6 +267,7 @@ type vCase struct {
 	loc           []int // location id per entry of srcs (nil: all distinct)
 	wantExact     []vWantX        // top-level keys whose value must be exactly the later source's (plain) value
 	dead          map[string]bool // reference URIs that occur only in values a later source replaces
+	dname         string          // the case's only reference, whose NAME has a `$` (first / last position …): must be rejected
 	mustSucceed   bool            // every reference that survives the merge is resolvable
 	wantc         []vWantC
 	wants         []vWant        // whole-value references whose original text every string-kind target must show
@@ -638,7 +639,23 @@ func (c *vCase) run(out *vOut, idx int) (stuck bool) {
 	if c.kind == "override" {
 		leaf = 1
 	}
-	out.Linef("op resolve hint=%s tokonly=%d leaf=%d", hint, tokOnly, leaf)
+	dn := 0
+	if c.dname != "" {
+		dn = 1
+	}
+	out.Linef("op resolve hint=%s tokonly=%d leaf=%d dname=%d", hint, tokOnly, leaf, dn)
+	if c.dname != "" {
+		// direct oracle: a reference whose name contains `$` is an error, and the provider is never asked for such a name
+		if err == nil {
+			out.Linef("viol sig=C12/name/dollar-in-name-not-rejected input=%s resolved-without-error", vHexS(c.dname))
+		} else if hint != "dollar-in-name" {
+			out.Linef("viol sig=C12/name/dollar-in-name-not-rejected input=%s class=%s", vHexS(c.dname), hint)
+		}
+		if len(retrieved) > 0 {
+			out.Linef("viol sig=C12/name/provider-consulted-for-rejected-name input=%s retrieved=%s", vHexS(c.dname), vHexS(strings.Join(retrieved, " ")))
+		}
+		out.Linef("stat dname_cases 1")
+	}
 	for _, u := range retrieved {
 		k := strings.IndexByte(u, ':')
 		out.Linef("tr retrieved %s %s", vHexS(u[:k]), vHex(u[k+1:]))
@@ -1206,7 +1223,8 @@ func vGenToks(rnd *rand.Rand, c *vCase) []vTok {
 }
 
 var vPieces = []string{"a", "b c", "$", "$$", "${", "}", "${env:A}", "${A}", "${zz:A}", "${a:x}", "${env:$A}", "${env:${env:D}}",
-	"${env:A", ":", "{", "${file:B}", "${ab:C}", "$${env:A}", "${env:E}", "${env:F}", "${}", "${:}", "${env:}", "${9x:A}", "${env:x y}", "\xc3\xa9"}
+	"${env:A", ":", "{", "${file:B}", "${ab:C}", "$${env:A}", "${env:E}", "${env:F}", "${}", "${:}", "${env:}", "${9x:A}", "${env:x y}", "\xc3\xa9",
+	"${env:A$}", "${A$$}", "${$A}", "${$}", "${env:$}", "${{A}", "${env:{A}", "${env:A{}", "${env:A$$}"}
 
 func vGenString(rnd *rand.Rand) string {
 	n := rnd.IntN(7)
@@ -1418,6 +1436,16 @@ func vCorpus() []*vCase {
 	ovr("${env:MISSING}", "v", nil)
 	ovr("${env:CYC}", []any{1}, func(c *vCase) { c.setYAML("env", "CYC", "${env:CYC}") })
 	ovr("${env:a$b}", map[string]any{}, nil)
+	// `$` at the FIRST / LAST position of the reference name (and alone): rejected, the provider is never asked
+	for _, dv := range [][2]string{{"", "${env:HOST$}"}, {"env", "${HOST$$}"}, {"env", "${$HOST}"}, {"env", "${$}"}, {"", "${env:$}"},
+		{"", "http://${env:HOST$}:4317"}, {"env", "x ${$HOST} y"}} {
+		c := mk("corpus", dv[0], dv[1], func(c *vCase) {
+			c.setYAML("env", "HOST", "h")
+			c.setYAML("env", "", "empty-name-value")
+		})
+		c.kind = "dname"
+		c.dname = dv[1]
+	}
 	return cs
 }
 
@@ -1729,6 +1757,45 @@ func vGenOverride(c *vCase, rnd *rand.Rand) {
 	}
 }
 
+// vGenDollarName: the config's ONLY reference has a `$` in its NAME — at the first or last position (also doubled, alone,
+// next to `{`), with and without scheme, as the whole value or embedded, at a top-level or nested key or in a list. Resolve
+// must fail with the `$`-in-name error and no provider may be consulted (a trimmed name such as HOST or "" exists).
+func vGenDollarName(c *vCase, rnd *rand.Rand) {
+	c.kind = "dname"
+	c.setYAML("env", "HOST", "h")
+	c.setYAML("env", "", "empty-name-value")
+	c.setYAML("env", "{HOST", "brace")
+	names := []string{"HOST$", "$HOST", "HOST$$", "$$HOST", "$", "$$", "$HOST$", "{HOST$", "$HOST{", "HO$ST", "HOST$ ", "$ HOST"}
+	name := names[rnd.IntN(len(names))]
+	ref := "${env:" + name + "}"
+	if rnd.IntN(2) == 0 {
+		c.defaultScheme = "env"
+		if rnd.IntN(3) > 0 {
+			ref = "${" + name + "}"
+		}
+	}
+	val := ref
+	switch rnd.IntN(4) {
+	case 0:
+		val = "http://" + ref + ":4317"
+	case 1:
+		val = ref + "/path"
+	}
+	c.dname = val
+	m := map[string]any{"b": "plain", "n": map[string]any{"x": 1}}
+	switch rnd.IntN(4) {
+	case 0:
+		m["n"] = map[string]any{"x": 1, "k": val}
+	case 1:
+		m["k0"] = []any{"lit", val}
+	default:
+		m["k0"] = val
+	}
+	c.srcs = []any{m}
+	c.toks = map[string][]vTok{}
+	c.tokOnly = false
+}
+
 func vGenCase(idx int, rnd *rand.Rand) *vCase {
 	c := vNewCase()
 	if rnd.IntN(2) == 0 {
@@ -1761,6 +1828,9 @@ func vGenCase(idx int, rnd *rand.Rand) *vCase {
 		c.kind = "rand"
 		vGenProviders(c, rnd, 0.6)
 		c.srcs = []any{vGenMap(rnd, 3, 0.8)}
+		if rnd.IntN(5) == 0 {
+			vGenDollarName(c, rnd)
+		}
 	case 2: // merge of several sources, mostly plain
 		c.kind = "merge"
 		vGenProviders(c, rnd, 0.9)
